@@ -121,8 +121,11 @@ def write_new_batch(buffer: IO[bytes], new_batch: NewRecordBatch) -> None:
     base_offset = first_record.offset
     last_offset_delta = i32(last_record.offset - base_offset)
     base_timestamp = i64(round(first_record.timestamp.timestamp() * 1000))
+    # Compare instants, not datetime objects: comparison of two datetimes that share a
+    # tzinfo ignores their fold, so the later of two records within a repeated DST hour
+    # would not be found.
     max_timestamp = i64(
-        round(1000 * max(record.timestamp for record in new_batch.records).timestamp())
+        round(1000 * max(record.timestamp.timestamp() for record in new_batch.records))
     )
 
     with io.BytesIO() as crc_buffer:
